@@ -244,8 +244,10 @@ class Poly:
             for c in cells[: 1 + arg % 3]:
                 c.get_nodes(projection=bool(arg % 2))
         elif what == "element_graph":
-            pts = np.asarray(o.get_nodes(projection=True))[: 4 + arg % 9]
-            o.get_N_element_graph(pts)
+            from molgri.space.polytopes import PolyhedronFromG
+            pts = np.asarray(o.get_nodes(projection=True))[: [8, 12, 26, 42, 5, 16][arg % 6]]
+            reduced, _ = o.get_N_element_graph(pts)
+            PolyhedronFromG(reduced).get_nodes()
 
     def nontrivial(self):
         return len(self.getter_levels) >= 2
@@ -358,7 +360,40 @@ def _fixed_history(arg):
     return res
 
 
+def _fixed_ops(kind, top, observers):
+    ops = []
+    for lv in range(top + 1):
+        if observers and len(lattice_cached(kind, lv)) <= 200:
+            ops += [{"op": "observe", "what": w, "arg": lv} for w in
+                    (["cells"] if kind == "cube4D" else []) + ["element_graph", "adjacency", "str"]]
+        ops += [{"op": "nodes", "projection": False, "N": None}, {"op": "nodes", "projection": True, "N": None}]
+        if kind == "cube4D":
+            ops.append({"op": "half", "projection": True, "N": None})
+        if lv < top:
+            ops.append({"op": "divide"})
+    return ops
+
+
+def _session(seq):
+    """Several polytope objects used one after the other in one (fresh) worker process - as the plotting code does with the
+    hypercube, its eight cells and the 3D polytopes: what one object returns does not depend on the other objects."""
+    res = Result()
+    before = []
+    for kind, top, observers in seq:
+        ops = _fixed_ops(kind, top, observers)
+        msgs, p = run_ops(kind, ops)
+        case = {"kind": kind, "ops": clean_ops(p.ops), "session_before": [list(x) for x in before]}
+        res.case(sample=case, nontrivial=True, key=case, classes=[f"kind={kind}", "cross_object_session",
+                                                                  "getter_before_and_after_division"])
+        if msgs:
+            res.violation(case, "; ".join(msgs) + f" (objects used before in this process: {before})")
+        before.append((kind, top, observers))
+    return res
+
+
 def replay(case):
+    for kind, top, observers in case.get("session_before", []):       # reproduce the process history
+        run_ops(kind, _fixed_ops(kind, top, observers))
     return run_ops(case["kind"], case["ops"])[0]
 
 
@@ -372,12 +407,16 @@ def run(tier):
         shards, per, steps = 16, 20, 14
         fixed = [("cube4D", 2), ("ico", 4), ("cube3D", 4)]
     fixed = fixed + [(k, top, True) for k, top in fixed]
-    results = pmap(_fixed_history, fixed) + pmap(_machine_shard, [(s, per, steps, max_levels) for s in range(shards)])
+    sessions = [[("cube4D", 1, True), ("cube3D", 2, False), ("ico", 2, False)], [("cube4D", 0, True), ("ico", 1, True), ("cube3D", 1, True)],
+                [("ico", 2, True), ("cube3D", 2, True), ("cube4D", 1, True)], [("cube3D", 1, True), ("cube4D", 1, True), ("cube3D", 2, False), ("ico", 1, False)]]
+    results = pmap(_session, sessions)      # first: every session starts in a freshly forked worker
+    results += pmap(_fixed_history, fixed) + pmap(_machine_shard, [(s, per, steps, max_levels) for s in range(shards)])
     res = merge_results(results)
     res.violations.sort(key=lambda v: len(v["case"]["ops"]))
     rule = (f"Hypothesis state machine over one polytope (ico / cube3D / cube4D): rules divide (to level {max_levels}), "
             f"get_nodes(N, projection) with N from none / 0..1.2x the node count, get_half_of_hypercube(N, projection), observe (the other public read-only getters: adjacency, distance matrix, "
             f"neighbours, edge categories, str, the eight cells of the hypercube, N-element graph; results not judged, they must leave the polytope unchanged); "
             f"plus two fixed histories per polytope calling every node getter at every level up to ico 4 / cube3D 4 / cube4D 2, one of them with every observer at every level of <= 200 nodes. "
+            f"plus four cross-object sessions (hypercube with its cells, cube and icosahedron used one after the other in one fresh process, in different orders). "
             f"Non-trivial history = a getter call before and after a division (cache path); distinct = distinct operation sequence.")
     return res, rule, {"assumptions": ["levels beyond ico 4 / cube3D 4 / hypercube 2 are outside the exploration bound"]}
